@@ -107,6 +107,14 @@ def mon_c07(cfg, eff, recs):
     same value; cache traffic never changes or removes an archived entry"""
     hits = []
     for i, r in enumerate(recs):
+        if r['op'][0] == 'call' and r['out'][0] == 'raise' and r['out'][1] == 'OSError' and r['pre']['arch'] is not None \
+                and r['post']['arch'] is not None and _alg(eff) != 'no':
+            # the archive refused a write during this call: whatever was in memory is still somewhere
+            for kk, v in r['pre']['mem'].items():
+                if r['post']['mem'].get(kk) != v and r['post']['arch'].get(kk) != v:
+                    hits.append({'prop': 'C07', 'step': i,
+                                 'what': 'the archive refused a write during the call; entry %r=%r is now neither in memory nor in the archive' % (kk, v)})
+            continue
         if r['op'][0] != 'call' or r['out'][0] != 'ret':
             continue
         pre, post = r['pre'], r['post']
